@@ -46,24 +46,26 @@ const never = uint32(1 << 30)
 
 type world struct {
 	storage map[string]map[string][]byte
+	owned   map[string]bool // inner storage maps this instance may modify (copy-on-write)
 	balance map[string]*big.Int
 	code    map[string][]byte
 	epoch   uint32
 }
 
 func newWorld() *world {
-	return &world{storage: map[string]map[string][]byte{}, balance: map[string]*big.Int{}, code: map[string][]byte{}}
+	return &world{storage: map[string]map[string][]byte{}, owned: map[string]bool{}, balance: map[string]*big.Int{}, code: map[string][]byte{}}
 }
 
+// clone is copy-on-write for the per-address storage maps: both copies share them and the
+// first write through either copy duplicates the map it touches (see writable).
 func (w *world) clone() *world {
 	c := newWorld()
 	c.epoch = w.epoch
 	for a, m := range w.storage {
-		cm := make(map[string][]byte, len(m))
-		for k, v := range m {
-			cm[k] = v // values are never modified in place
-		}
-		c.storage[a] = cm
+		c.storage[a] = m
+	}
+	for a := range w.owned {
+		delete(w.owned, a)
 	}
 	for a, b := range w.balance {
 		c.balance[a] = new(big.Int).Set(b)
@@ -72,6 +74,20 @@ func (w *world) clone() *world {
 		c.code[a] = b
 	}
 	return c
+}
+
+func (w *world) writable(a string) map[string][]byte {
+	m := w.storage[a]
+	if w.owned[a] {
+		return m
+	}
+	cm := make(map[string][]byte, len(m)+2)
+	for k, v := range m {
+		cm[k] = v // values are never modified in place
+	}
+	w.storage[a] = cm
+	w.owned[a] = true
+	return cm
 }
 
 func (w *world) get(addr []byte, key string) []byte {
@@ -375,11 +391,10 @@ func (s *sysVM) apply(caller []byte, value *big.Int, out *vmcommon.VMOutput) {
 	s.w.addBal(caller, new(big.Int).Neg(value))
 	for _, oa := range out.OutputAccounts {
 		a := string(oa.Address)
+		var m map[string][]byte
 		for _, su := range oa.StorageUpdates {
-			m := s.w.storage[a]
 			if m == nil {
-				m = map[string][]byte{}
-				s.w.storage[a] = m
+				m = s.w.writable(a)
 			}
 			if len(su.Data) == 0 {
 				delete(m, string(su.Offset))
